@@ -127,11 +127,10 @@ unsigned MessageBase::extract_trailer(const f8String& from, f8String& chksum)
 //-------------------------------------------------------------------------------------------------
 unsigned MessageBase::decode(const f8String& from, unsigned s_offset, unsigned ignore, bool permissive_mode)
 {
-	const unsigned fsize(static_cast<unsigned>(from.size()) - ignore), npos(0xffffffff), start_offset(s_offset);
-	unsigned pos(static_cast<unsigned>(_pos.size())), last_valid_pos(npos);
+	const unsigned fsize(static_cast<unsigned>(from.size()) - ignore), start_offset(s_offset);
+	unsigned pos(static_cast<unsigned>(_pos.size()));
 	const char *dptr(from.data());
 	char tag[FIX8_MAX_FLD_LENGTH], val[FIX8_MAX_FLD_LENGTH];
-	size_t last_valid_offset(0);
 
 	for (unsigned result; s_offset <= fsize && (result = extract_element(dptr + s_offset, fsize - s_offset, tag, val));)
 	{
@@ -140,13 +139,10 @@ unsigned MessageBase::decode(const f8String& from, unsigned s_offset, unsigned i
 		if (itr == _fp.get_presence().end())
 		{
 unknown_field:
-			if (permissive_mode)
+			// permissive mode passes through what the schema does not know; a field of another part of the message
+			// (body after header, trailer after body) ends this part exactly as in strict mode
+			if (permissive_mode && !_ctx.find_be(tv))
 			{
-				if (last_valid_pos == npos)
-				{
-					last_valid_pos = pos;
-					last_valid_offset = s_offset;
-				}
 				_unknown.append(dptr + s_offset, result);
 				s_offset += result;
 				continue;
@@ -216,7 +212,7 @@ unknown_field:
 		throw MissingMandatoryField(ostr.str());
 	}
 
-	return permissive_mode && last_valid_pos == pos ? static_cast<unsigned>(last_valid_offset) : s_offset;
+	return s_offset;
 }
 
 //-------------------------------------------------------------------------------------------------
